@@ -2,6 +2,8 @@
 
 package lnwallet
 
+import "sort"
+
 // Verification hooks (overlay only, never part of lnd): a read-only
 // projection of the in-memory state of a LightningChannel.
 
@@ -41,6 +43,18 @@ type VerifSnap struct {
 	RemoteLogIndex, RemoteHtlcCounter  uint64
 	LocalLog, RemoteLog                []VerifLogEntry
 	LocalChain, RemoteChain            []VerifChainEntry
+	// ModifiedLocal / ModifiedRemote are the HTLC ids of the local /
+	// remote log that are marked as already settled or failed.
+	ModifiedLocal, ModifiedRemote []uint64
+}
+
+func verifModified(l *updateLog) []uint64 {
+	var out []uint64
+	for id := range l.modifiedHtlcs {
+		out = append(out, id)
+	}
+	sort.Slice(out, func(i, j int) bool { return out[i] < out[j] })
+	return out
 }
 
 func verifLog(l *updateLog) []VerifLogEntry {
@@ -108,5 +122,7 @@ func (lc *LightningChannel) VerifSnapshot() VerifSnap {
 		RemoteLog:         verifLog(lc.updateLogs.Remote),
 		LocalChain:        verifChain(lc.commitChains.Local),
 		RemoteChain:       verifChain(lc.commitChains.Remote),
+		ModifiedLocal:     verifModified(lc.updateLogs.Local),
+		ModifiedRemote:    verifModified(lc.updateLogs.Remote),
 	}
 }
